@@ -429,6 +429,42 @@ def r17_5(rep, M, rid):
                     rep.violation(rid, f"{fq.split('.')[-1]}: read of self.{x.attr}", "instance state read without being set in __init__ or "
                                   "on every path of this call: the result depends on earlier calls", M.where(fq, x))
     rep.ok(rid, "every self.<attr> read by classify / cross_validate_region is initialised in __init__ or earlier in the same call")
+    # nothing is carried from one classify() call to the next: an attribute that classify or its helpers *write* is working state and may
+    # only be read after a write of the same call (attributes written in classify itself reach the helpers through the placeholder rule below)
+    written_by = {}
+    for q2 in M.functions():
+        if M.parent.get(q2) != CLS or q2.endswith(".__init__"):
+            continue
+        for a in ast.walk(M.func(q2)):
+            if isinstance(a, (ast.Assign, ast.AugAssign)):
+                for t in (a.targets if isinstance(a, ast.Assign) else [a.target]):
+                    if isinstance(t, ast.Attribute) and isinstance(t.value, ast.Name) and t.value.id == "self":
+                        written_by.setdefault(t.attr, set()).add(q2)
+    in_classify = {a for a, qs in written_by.items() if FQ in qs}
+    for fq2 in sorted({q for qs in written_by.values() for q in qs} - {FQ}):
+        fn2 = M.func(fq2)
+        fl2 = Flow(fn2)
+        wn = {}
+        for n2, d2 in fl2.cfg.g.nodes(data=True):
+            st = d2["ast"]
+            if isinstance(st, (ast.Assign, ast.AugAssign)):
+                for t in (st.targets if isinstance(st, ast.Assign) else [st.target]):
+                    if isinstance(t, ast.Attribute) and isinstance(t.value, ast.Name) and t.value.id == "self":
+                        wn.setdefault(t.attr, []).append(n2)
+        for n2, d2 in fl2.cfg.g.nodes(data=True):
+            st = d2["ast"]
+            if st is None:
+                continue
+            for x in walk_own(st):
+                if isinstance(x, ast.Attribute) and isinstance(x.value, ast.Name) and x.value.id == "self" and isinstance(x.ctx, ast.Load) \
+                        and x.attr in written_by and x.attr not in in_classify and not M.find_method(CLS, x.attr):
+                    w = [m for m in wn.get(x.attr, []) if m != n2]
+                    if w and fl2.cfg.all_paths_pass(fl2.cfg.entry, n2, w):
+                        continue
+                    rep.violation(rid, f"{fq2.split('.')[-1]}: read of self.{x.attr}", f"self.{x.attr} is written by {sorted(q.split('.')[-1] for q in written_by[x.attr])} and read here "
+                                  "before this call has written it: the value left by the previous structure is used (a reused classifier hands the earlier, larger region "
+                                  "to a later structure, whose basis indices then point outside the system)", M.where(fq2, x))
+    rep.ok(rid, f"working state of the classifier ({sorted(written_by)}) is never read before it is written in the same call")
     # working state of one call: attributes that __init__ only creates as None placeholders and classify fills in must be filled on
     # *every* path before anything reads them (otherwise None, or the value of a previous call, is used)
     placeholders = {t.attr for s in ast.walk(init) if isinstance(s, ast.Assign) and isinstance(s.value, ast.Constant) and s.value.value is None
